@@ -19,6 +19,18 @@ pub enum Act {
 }
 
 pub const PUSH_KINDS: [&str; 6] = ["MEASUREMENT", "CHARACTERISTIC", "COMPU_METHOD", "GROUP", "IF_DATA", "USER_RIGHTS"];
+/// every list kind of the module (P(k) with k >= 6 pushes ALL_LIST_KINDS[k - 6]; only used by the all-kinds family)
+pub const ALL_LIST_KINDS: [&str; 20] = [
+    "AXIS_PTS", "BLOB", "CHARACTERISTIC", "COMPU_METHOD", "COMPU_TAB", "COMPU_VTAB", "COMPU_VTAB_RANGE", "FRAME", "FUNCTION", "GROUP", "INSTANCE", "MEASUREMENT", "RECORD_LAYOUT", "TRANSFORMER",
+    "TYPEDEF_AXIS", "TYPEDEF_BLOB", "TYPEDEF_CHARACTERISTIC", "TYPEDEF_MEASUREMENT", "TYPEDEF_STRUCTURE", "UNIT",
+];
+fn push_kind(k: usize) -> &'static str {
+    if k < PUSH_KINDS.len() {
+        PUSH_KINDS[k]
+    } else {
+        ALL_LIST_KINDS[k - PUSH_KINDS.len()]
+    }
+}
 
 fn is_list_kind(tag: &str) -> bool {
     tag != "IF_DATA" && tag != "USER_RIGHTS" && tag != "A2ML" && tag != "MOD_COMMON" && tag != "MOD_PAR" && tag != "VARIANT_CODING"
@@ -70,7 +82,7 @@ impl Sim {
         match a {
             Act::S => guard(|| self.file.sort_new_items()).map_err(|p| format!("panic: {p}")),
             Act::P(k) => {
-                let tag = PUSH_KINDS[k];
+                let tag = push_kind(k);
                 self.counter += 1;
                 let c = self.counter;
                 let mut kk = 9000 + c * 40;
@@ -143,7 +155,7 @@ impl Sim {
         // every element is still written
         for x in uid_after.keys() {
             if !out.contains(x) {
-                return Err(("element-missing".into(), format!("after {a:?}: {} {} is not in the output", x.0, x.1)));
+                return Err(("element-missing".into(), format!("after {a:?}: {} {} is not in the output {:?}", x.0, x.1, fmt_ids(&out.iter().filter(|y| y.0 == x.0).collect::<Vec<_>>()))));
             }
         }
         if a == Act::S {
@@ -238,6 +250,9 @@ fn fmt_ids(v: &[&Id]) -> Vec<String> {
 }
 
 fn names_of(f: &A2lFile, tag: &str) -> Vec<String> {
+    if !matches!(tag, "MEASUREMENT" | "CHARACTERISTIC" | "COMPU_METHOD" | "GROUP") {
+        return uid_map(f).into_keys().filter(|k| k.0 == tag).map(|k| k.1).collect();
+    }
     use a2lfile::A2lObjectName;
     let m = &f.project.module[0];
     match tag {
@@ -317,6 +332,22 @@ pub fn run(tier: &str) -> Run {
         specs.extend((0..30).map(|i| e("CHARACTERISTIC", &format!("bc{i:02}"), "c1")));
         starts.push(("30+30".into(), file_text(&g, "m", &specs)));
     }
+    // every list kind of the module: a file with two elements of each of the 20 kinds (interleaved), then for each kind a
+    // history that pushes new elements of that kind between calls; every step observed
+    let allk = starts.len();
+    {
+        let mut specs: Vec<ESpec> = Vec::new();
+        for round in 0..2 {
+            for kind in ALL_LIST_KINDS {
+                let mut x = e(kind, &format!("{}{}", kind.to_lowercase().replace('_', ""), round), "c1");
+                if kind == "INSTANCE" {
+                    x = x.set("type_ref", "typedefstructure0");
+                }
+                specs.push(x);
+            }
+        }
+        starts.push(("two of every kind".into(), file_text(&g, "m", &specs)));
+    }
     let acts = all_actions();
     let mut hists: Vec<(usize, Vec<Act>, bool, &'static str)> = Vec::new();
     // (i) all action sequences up to depth d (every step observed)
@@ -393,6 +424,12 @@ pub fn run(tier: &str) -> Run {
         hists.push((2, h, true, "insert-sort-cycles"));
         hists.push((0, vec![Act::P(k), Act::P((k + 1) % 6), Act::S, Act::P(k), Act::S, Act::S, Act::M(1), Act::S], true, "insert-sort-cycles"));
     }
+    for k in 0..ALL_LIST_KINDS.len() {
+        let p = Act::P(PUSH_KINDS.len() + k);
+        hists.push((allk, vec![Act::S, p, Act::S, p, p, Act::S, Act::S, Act::M(3), Act::S, p, Act::S], true, "all-kinds"));
+        hists.push((allk, vec![p, Act::S, Act::S], true, "all-kinds"));
+    }
+    hists.push((allk, vec![Act::S; 40], true, "all-kinds"));
     // several new elements of one kind per cycle on a large file: they share one position key for ever, so their
     // relative order rests on the stability of every later sort
     for k in 0..PUSH_KINDS.len() {
@@ -492,7 +529,7 @@ pub fn run(tier: &str) -> Run {
     run.require("all-sequences: stable", 1000);
     run.require("long-history: stable", 1000);
     run.extra.insert("bounds".into(), json!({"all_sequences_depth": depth, "long_history_length": len, "actions": acts.len(), "starts": starts.len()}));
-    run.rule = "state = the real A2lFile; actions = sort_new_items (S), push a builder-made element of 6 kinds (P), merge one of 5 small modules (three with fresh names, two that also hold same-name elements with other content, same-name identical elements and a same-name GROUP) (M); an element counts as new from the moment it appears until the next S, whatever position key it carries. (i) every action sequence of depth d from 4 start files, observed after each step; (ii) histories of S of length L with at most two other actions at every pair of positions; (iii) 64 consecutive S on files with 1..1000 elements and on 54 files in which three kinds appear in every order in blocks of 2..40 with IF_DATA / USER_RIGHTS in front; insert/sort cycles (40, thorough 200); 2 and 5 new elements of one kind per cycle for 12 (24) cycles on a file with 30+30 elements. Observation: the order of the module's children in write_to_string (reference interpreter). Oracle: relative order of placed elements never changes; after S each new element sits in the run directly behind the last placed element of its kind (behind all placed elements if there is none); no panic / overflow.".into();
+    run.rule = "state = the real A2lFile; actions = sort_new_items (S), push a builder-made element of 6 kinds (P), merge one of 5 small modules (three with fresh names, two that also hold same-name elements with other content, same-name identical elements and a same-name GROUP) (M); an element counts as new from the moment it appears until the next S, whatever position key it carries. (i) every action sequence of depth d from 4 start files, observed after each step; (ii) histories of S of length L with at most two other actions at every pair of positions; a file with two elements of each of the 20 list kinds and, per kind, histories that push new elements of that kind between calls; (iii) 64 consecutive S on files with 1..1000 elements and on 54 files in which three kinds appear in every order in blocks of 2..40 with IF_DATA / USER_RIGHTS in front; insert/sort cycles (40, thorough 200); 2 and 5 new elements of one kind per cycle for 12 (24) cycles on a file with 30+30 elements. Observation: the order of the module's children in write_to_string (reference interpreter). Oracle: relative order of placed elements never changes; after S each new element sits in the run directly behind the last placed element of its kind (behind all placed elements if there is none); no panic / overflow.".into();
     run
 }
 
